@@ -1545,17 +1545,17 @@ class Tensor:
         #
         # Create new shape list
         #
-        # TBD: Create shape
-        #
-        shape = None
+        shape = copy.deepcopy(self.getShape(authoritative=True))
+        if shape:
+            shape[depth], shape[depth + 1] = shape[depth + 1], shape[depth]
 
         # Only call Fiber.swapRanks if there are actually payloads to swap
-        if not all(fiber.isEmpty() for fiber in self.ranks[depth].fibers):
+        if depth > 0 or not self.getRoot().isEmpty():
             root = self._modifyRoot(Fiber.swapRanks,
                                     Fiber.swapRanksBelow,
                                     depth=depth)
         else:
-            root = copy.deepcopy(self.getRoot())
+            root = Fiber()
 
         #
         # Create Tensor from rank_ids and root fiber
